@@ -488,6 +488,15 @@ B('r3-benign-reset-both-maps-in-take', ['C10'], PC, "        if max(gate.qubits)
 B('r3-benign-list-repr-map', ['C20'], PP, "        return '\\n'.join([repr(pauli) for pauli in self])", "        return '\\n'.join(map(repr, self))")
 B('r3-benign-list-repr-loop', ['C20'], PP, "        return '\\n'.join([repr(pauli) for pauli in self])", "        lines = []\n        for k in range(len(self)):\n            lines.append(str(self[k]))\n        return '\\n'.join(lines)")
 M('r3-list-repr-skips-first', ['C20'], PP, "        return '\\n'.join([repr(pauli) for pauli in self])", "        return '\\n'.join([repr(self[k]) for k in range(1, len(self))])", ['R12.listrepr'])
+_COPY_OLD = "        for i, layer in enumerate(self.layers_forward()):\n            new_layer = layer.copy()\n            if i == 0:\n                circ.first_layer = new_layer\n                circ.last_layer = new_layer\n            else:\n                circ.last_layer.next_layer = new_layer\n                new_layer.prev_layer = circ.last_layer\n                circ.last_layer = new_layer\n"
+B('r4-benign-copy-comprehension-zip', ['C09', 'C17', 'C10'], PC, _COPY_OLD,
+  "        layers = [layer.copy() for layer in self.layers_forward()]\n        for a, b in zip(layers[:-1], layers[1:]):\n            a.next_layer = b\n            b.prev_layer = a\n        circ.first_layer, circ.last_layer = layers[0], layers[-1]\n", 'CliffordCircuit.copy')
+M('r4-copy-comprehension-reversed', ['C09', 'C17'], PC, _COPY_OLD,
+  "        layers = [layer.copy() for layer in self.layers_backward()]\n        for a, b in zip(layers[:-1], layers[1:]):\n            a.next_layer = b\n            b.prev_layer = a\n        circ.first_layer, circ.last_layer = layers[0], layers[-1]\n", ['R10.link'], 'CliffordCircuit.copy')
+B('r4-benign-monomial-matmul-inline', ['C01', 'C15'], PP, "        if isinstance(other, (Pauli, PauliMonomial, PauliPolynomial)):\n            return self.as_polynomial() @ other.as_polynomial()\n        else:\n            raise NotImplementedError('matmul is not implemented for between {} and {}'.format(type(self).__name__, type(other).__name__))\n\n    def set_c(self, c):",
+  "        if isinstance(other, PauliPolynomial):\n            return self.as_polynomial() @ other\n        elif isinstance(other, Pauli):\n            g = self.g ^ other.g\n            p = (self.p + other.p + ipow(self.g, other.g)) & 3\n            c = self.c * (other.c if isinstance(other, PauliMonomial) else 1)\n            return PauliMonomial(g, p).set_c(c).as_polynomial()\n        else:\n            raise NotImplementedError('matmul is not implemented for between {} and {}'.format(type(self).__name__, type(other).__name__))\n\n    def set_c(self, c):")
+B('r4-benign-take-resets-both-via-helper', ['C10'], PC, "    def take(self, gate):\n        if max(gate.qubits)>=self.N:\n            raise ValueError(\"The gate acting on unregistered qubits!\")\n        if self.last_layer.independent_from(gate): # if last layer commute with the new gate",
+  "    def _invalidate(self):\n        self.forward_map = None\n        self.backward_map = None\n\n    def take(self, gate):\n        if max(gate.qubits)>=self.N:\n            raise ValueError(\"The gate acting on unregistered qubits!\")\n        self._invalidate()\n        if self.last_layer.independent_from(gate): # if last layer commute with the new gate")
 # ------------------------------------------------------------------ R19 mixed-library dataflow (torch port)
 M('r19-embed-tensor-mask', ['C03', 'C09', 'C10', 'C13', 'C18'], TS, '        mask2 = numpy.repeat(numpy.array(mask), 2)', '        mask2 = numpy.repeat(mask, 2)', ['R19'])
 M('r19-gate-tensor-qubits', ['C13', 'C18', 'C09'], TC, '    qubits_cond = qubits_cond.tolist() # plain integer qubit indices\n', '', ['R19'])
